@@ -53,18 +53,6 @@ fn c11_depth_guard_inductive_step() {
     core::mem::forget((r, ctx));
 }
 
-/// Model of `Vec::pop` for the harness below: shortens the vector like the real function but leaks the
-/// element instead of returning it (push_frame drops the rejected frame at once; the drop glue of a `Frame`
-/// read back from the heap - boxed loop iterators, closures - is what runs CBMC out of memory, and it has no
-/// influence on the depth accounting under test).
-pub(crate) fn vec_pop_leaking<T, A: core::alloc::Allocator>(v: &mut Vec<T, A>) -> Option<T> {
-    let n = v.len();
-    if n > 0 {
-        unsafe { v.set_len(n - 1) };
-    }
-    None
-}
-
 // @verif props=C11 tier=quick cap=900 group=core fns=Context::{push_frame,pop_frame,depth,incr_depth} stubs=Vec::pop->leaking_model
 /// push_frame - the guard every scoped construct, macro call and include passes through - from an ARBITRARY
 /// accounted depth (outer depth `pre` <= limit, as left behind by includes / macro calls, plus 0..=1 frames
@@ -75,7 +63,7 @@ pub(crate) fn vec_pop_leaking<T, A: core::alloc::Allocator>(v: &mut Vec<T, A>) -
 #[kani::unwind(4)]
 #[kani::stub(std::hash::RandomState::new, crate::verif_common::random_state_stub)]
 #[kani::stub(alloc::fmt::format, crate::verif_common::format_stub)]
-#[kani::stub(alloc::vec::Vec::pop, vec_pop_leaking)]
+#[kani::stub(alloc::vec::Vec::pop, crate::verif_common::vec_pop_leaking)]
 fn c11_push_frame_counts_outer_depth() {
     let requested: usize = kani::any();
     let env = leaked_env(requested);
